@@ -114,6 +114,8 @@ pub enum TxFault {
     Displaced,
     /// serial: error at this flush call
     FlushError(u8),
+    /// serial: `Interrupted` at this flush call and at the following ones, this many in a row
+    FlushInterrupted(u32),
 }
 
 /// Transmit-side reaction policy (C14). Random rates plus an optional single
@@ -126,6 +128,10 @@ pub struct TxPolicy {
     pub interrupted: u32,
     pub hard: u32,
     pub flush_err: u32,
+    /// serial: percent chance that a flush call is answered `Interrupted` (retryable), and the
+    /// bound on such answers in a row (a sender that keeps retrying gets through)
+    pub flush_intr: u32,
+    pub flush_intr_cap: u32,
     pub displaced: u32,
     /// (index of the write/transmit call, or of the flush call for FlushError, fault)
     pub placed: Option<(u32, TxFault)>,
@@ -140,6 +146,8 @@ impl TxPolicy {
             interrupted: 0,
             hard: 0,
             flush_err: 0,
+            flush_intr: 0,
+            flush_intr_cap: 0,
             displaced: 0,
             placed: None,
         }
@@ -174,6 +182,7 @@ pub struct Wire {
     pub flush_calls: u32,
     tx_wb_left: Option<u32>,
     flush_wb_left: Option<u32>,
+    consec_flush_intr: u32,
     pub tx_hard_errors: u32,
     pub tx_flush_errors: u32,
     pub tx_flush_ok_after_last_write: bool,
@@ -209,6 +218,7 @@ impl Wire {
             flush_calls: 0,
             tx_wb_left: None,
             flush_wb_left: None,
+            consec_flush_intr: 0,
             tx_hard_errors: 0,
             tx_flush_errors: 0,
             tx_flush_ok_after_last_write: true,
@@ -427,7 +437,7 @@ impl Dev {
             (w.tx.clone(), w.tx_calls)
         };
         if let Some((at, f)) = pol.placed {
-            if at == call && !matches!(f, TxFault::FlushError(_)) {
+            if at == call && !matches!(f, TxFault::FlushError(_) | TxFault::FlushInterrupted(_)) {
                 return f;
             }
         }
@@ -865,6 +875,28 @@ impl io::Write for Dev {
             let w = self.tx.borrow();
             (w.tx.clone(), w.flush_calls)
         };
+        // a retryable non-answer first
+        let consec = self.tx.borrow().consec_flush_intr;
+        let mut intr = false;
+        if let Some((at, TxFault::FlushInterrupted(n))) = pol.placed {
+            if call >= at && call < at + n {
+                intr = true;
+            }
+        }
+        if !intr && pol.flush_intr > 0 && consec < pol.flush_intr_cap && self.sim.chance(pol.flush_intr) {
+            intr = true;
+        }
+        if intr {
+            let mut w = self.tx.borrow_mut();
+            w.flush_calls += 1;
+            w.consec_flush_intr += 1;
+            w.tx_interrupted += 1;
+            drop(w);
+            self.sim.event(EV_TX, 14, 0, || format!("{}.serial.flush -> Err(Interrupted)", self.name));
+            self.sim.count("flush_interrupted");
+            return Err(io::Error::new(io::ErrorKind::Interrupted, "sim: EINTR"));
+        }
+        self.tx.borrow_mut().consec_flush_intr = 0;
         let mut fail: Option<u8> = None;
         if let Some((at, TxFault::FlushError(k))) = pol.placed {
             if at == call {
